@@ -624,7 +624,18 @@ def c20_driver(ctx):
             continue
         data = open(good, "rb").read()
         variants = {"valid": data, "empty": b"", "half": data[: len(data) // 2], "header-only": data[:12],
-                    "magic-zeroed": b"\0\0\0\0" + data[4:], "tail-cut": data[:-3]}
+                    "magic-zeroed": b"\0\0\0\0" + data[4:], "tail-cut": data[:-3],
+                    # the signature and version survive, every count and offset behind them is zero: loads, holds nothing
+                    "hollow": data[:8] + b"\0" * max(0, len(data) - 8)}
+        # reporting flags of the family's validate sub-command (they change what is printed, never the verdict)
+        rflags = []
+        if any(c[1] == "validate" for c in cmds):
+            _, helptxt, helperr = run([kind, "validate", "--help"])
+            for fl in ("--warnings", "--detailed", "--verbose"):
+                if fl in helptxt + helperr:
+                    rflags.append([fl])
+            if len(rflags) >= 2:
+                rflags.append([f[0] for f in rflags])
         for vn, vb in variants.items():
             pth = os.path.join(root, "in-%s.%s" % (vn, kind))
             open(pth, "wb").write(vb)
@@ -639,6 +650,13 @@ def c20_driver(ctx):
                         res["evals"] += 1
                         if min(rq, 1) != min(rc, 1):
                             res["oracle_fail"].append(("quiet-flag-changes-exit-status", "%s on %s input: exit %d without -q, %d with (%s)" % (" ".join(c), vn, rc, rq, " ".join(qargs[:2]))))
+                if c[1] == "validate" and rc != 0:
+                    for fl in rflags:
+                        rf, sof, _ = run(c + [pth] + fl)
+                        res["evals"] += 1
+                        bump("c20.%s.validate.%s.with%s.exit%d" % (kind, vn, "".join(fl), min(rf, 1)))
+                        if rf == 0:
+                            res["oracle_fail"].append(("reporting-flag-turns-failure-into-success", "%s validate on %s input: exit %d, with %s: exit 0" % (kind, vn, rc, " ".join(fl))))
                 bump("c20.%s.%s.%s.exit%d" % (kind, c[1], vn, min(rc, 1) if rc >= 0 else 2))
                 model_reqs.append(("c20exit other 0 %d 0 0 0" % (1 if lib else 0), str(min(rc, 1)))) if not (lib and rc != 0) else None
                 if not lib and rc == 0:
